@@ -9,6 +9,8 @@ import (
 	"context"
 	"sync/atomic"
 	"time"
+
+	"github.com/google/uuid"
 )
 
 var verifHook atomic.Value // of func(string)
@@ -105,4 +107,19 @@ func VerifDrainBuffer(r IBatcher) (n int) {
 			return
 		}
 	}
+}
+
+// VerifEventer exposes the unexported listener registry that Batcher and AzureSharedResource embed.
+type VerifEventer struct {
+	e eventer
+}
+
+func (v *VerifEventer) AddListener(fn func(event string, val int, msg string, metadata interface{})) uuid.UUID {
+	return v.e.AddListener(fn)
+}
+
+func (v *VerifEventer) RemoveListener(id uuid.UUID) { v.e.RemoveListener(id) }
+
+func (v *VerifEventer) Emit(event string, val int, msg string, metadata interface{}) {
+	v.e.emit(event, val, msg, metadata)
 }
